@@ -162,6 +162,11 @@ def c16_suites(tier, seed):
     # be refused cleanly (each history in its own probe process: a misaligned access aborts without unwinding)
     odd = [1025, 1026, 1028, 1030, 1031, 4099, 5001] if q else [1025, 1026, 1027, 1028, 1029, 1030, 1031, 2050, 3001, 4097, 4099, 4100, 5001, 9999, 65537]
     s.append(("odd-pagesizes", hists_of(jgen.gen_c16(seed + 9, 1, [(ps, 32, 0, 0) for ps in odd]))))
+    # an initial page count that the first transaction fills (almost) exactly: 1322 pages is what transaction 1 of
+    # gen_exact_fit needs at page size 4096 (measured on the pinned layout; the sweep is wide enough for a drift of
+    # a few pages); the next commit needs a multi-page free-list run from the end of a file that has never been extended
+    x = 1322
+    s.append(("exact-fit", hists_of(jgen.gen_exact_fit(list(range(x - 1, x + 4)) if q else list(range(x - 12, x + 13))))))
     return s
 
 
